@@ -360,6 +360,15 @@ def _vmdk_embedded(rng, ctx, c, cnt, sample, res):
 
     attr, extra, ddb, exts = _descriptor_model(rng)
     text = _render(attr, extra, ddb, exts, rng)
+    exact = rng.random() < 0.35
+    if exact:
+        # the descriptor fills its sectors to the last byte: no NUL terminator, no trailing line break
+        text = text.rstrip("\r\n")
+        nl = "\r\n" if "\r\n" in text else "\n"
+        first, rest = text.split(nl, 1)
+        pad = (-(len(text.encode()) + 1 + len(nl))) % SECTOR
+        text = first + nl + "#" + "-" * pad + nl + rest
+        assert len(text.encode()) % SECTOR == 0
     grain = rng.choice([1, 8, 16, 128])
     ngte = rng.choice([64, 512, 1024])
     cap = rng.randrange(1, 5000)
@@ -368,7 +377,8 @@ def _vmdk_embedded(rng, ctx, c, cnt, sample, res):
         sf, layer, meta = wvmdk.build_stream_optimized(rng, capacity=cap, grain=max(grain, 8), ngte=ngte, tag=3, descriptor=text)
         grain = max(grain, 8)
     else:
-        sf, layer, meta = wvmdk.build_hosted(rng, capacity=cap, grain=grain, ngte=ngte, placement="shuffle", tag=3, descriptor=text, version=rng.choice([1, 2, 3]))
+        sf, layer, meta = wvmdk.build_hosted(rng, capacity=cap, grain=grain, ngte=ngte, placement="shuffle", tag=3, descriptor=text, version=rng.choice([1, 2, 3]),
+                                             desc_exact=exact)
     v = _open(VMDK, as_handle(sf.to_bytes()))
     d0 = v.disks[0]
     c.eq("size", v.size, cap * SECTOR)
@@ -378,6 +388,8 @@ def _vmdk_embedded(rng, ctx, c, cnt, sample, res):
     c.eq("extent.header.num_grain_table_entries", d0.header.num_grain_table_entries, ngte)
     c.eq("extent.header.flags", d0.header.flags, meta["flags"])
     _check_descriptor(c, d0.descriptor, attr, extra, ddb, exts, cnt)
+    c.eq("descriptor.raw", d0.descriptor.raw, text)
+    cnt["embedded_descriptor_fills_its_sectors"] = int(exact)
     sample.update({"embedded": True, "stream_optimized": stream, "extent_lines": len(exts)})
 
 
